@@ -159,7 +159,11 @@ func (x *Exec) loopHeader(fr *Frame, h *ssa.BasicBlock, ord int, pre *Node, st *
 	hd := x.vc.newNode(fmt.Sprintf("%s.b%d.head", fr.fn.Name(), h.Index))
 	x.vc.link(pre, hd, "true", nil)
 	cur := st.clone()
-	mods := x.prog.loopMods(x, fr, h)
+	mods, freshMods := x.prog.loopMods(x, fr, h)
+	allocPre := x.allocNow(st)
+	for _, m := range freshMods {
+		x.havocFresh(hd, cur, m, allocPre)
+	}
 	for _, m := range mods {
 		x.havocVar(cur, m)
 		if t, ok := x.vc.cellType[m]; ok {
@@ -171,6 +175,14 @@ func (x *Exec) loopHeader(fr *Frame, h *ssa.BasicBlock, ord int, pre *Node, st *
 		n := x.get(cur, allocVar)
 		_ = a
 		hd.assume(app(">=", n.S, x.get(st, allocVar).S))
+	}
+	// range-over-slice loops: the hidden index starts at -1 and only grows
+	for _, in := range h.Instrs {
+		if s, ok := in.(*ssa.Store); ok {
+			if a, ok := s.Addr.(*ssa.Alloc); ok && a.Comment == "rangeindex" && fr.isCell[a] {
+				hd.assume(app(">=", x.get(cur, x.cellVar(fr, a)).S, "(- 1)"))
+			}
+		}
 	}
 	fr.loopHeadState[h] = cur.clone()
 	if spec != nil {
@@ -589,16 +601,16 @@ func (x *Exec) eqTerm(a, b Term, t types.Type) string {
 	if a.Sort == SSlice || b.Sort == SSlice {
 		// only comparison with nil is legal
 		other := a
-		if a.S == "nilslice" {
+		if isNilSlice(a.S) {
 			other = b
 		}
 		return app("=", app("s.arr", other.S), "0")
 	}
 	if a.Sort == SIface && b.Sort == SIface {
-		if a.S == "niliface" {
+		if isNilIface(a.S) {
 			return app("=", app("i.tag", b.S), "0")
 		}
-		if b.S == "niliface" {
+		if isNilIface(b.S) {
 			return app("=", app("i.tag", a.S), "0")
 		}
 	}
